@@ -206,8 +206,8 @@ PROPS = {
     "C19": {
         "lean_modules": ["WP.Props.C19"],
         "lean_support": [],
-        "families": [("mint", 40000, 2000000), ("badge", 0, 0), ("setfee", 10000, 200000), ("afc", 30000, 1000000), ("initpool", 20000, 500000), ("xadm", 8000, 400000)],
-        "rule": "xadm: 19 settings instructions (fee / protocol fee rates of pools, fee tiers and adaptive fee tiers, every set-authority instruction, adaptive-fee constants, config feature flag, config-extension and token-badge settings) executed through the program's REAL entrypoint on a world of two configs with different authorities: everything right / authority not signing / a stranger signing / the other config's authority with this config's target account or another role's authority / value out of bounds / target account of the other config; the op line carries the environment read from the real accounts, the Lean model answers with `accepts` on the REGENERATED account table (acceptsB_iff) and the setter's bound, so the translated tables and the semantics given to Signer / address / has_one / constraint are compared with Anchor's generated validation; oracle: only the all-right variant may succeed and then only the target account changes; mint: is_supported_token_mint on synthesized SPL / Token-2022 mint accounts (real packed base state; TLV with 0-4 entries drawn from supported, badge-gated, "
+        "families": [("mint", 40000, 2000000), ("badge", 0, 0), ("setfee", 10000, 200000), ("afc", 30000, 1000000), ("initpool", 20000, 500000), ("xadm", 8000, 400000), ("xinit", 6000, 300000)],
+        "rule": "xinit: initialize_pool_v2 executed through the program's REAL entrypoint (whirlpool account created by Anchor's init, both vaults by the system program and the REAL SPL Token / Token-2022 processors): mint key order canonical / swapped / same mint twice, price inside / at / outside the bounds, fee tier of this or another spacing with fee rate and config protocol fee rate inside / outside their maxima, each mint SPL or Token-2022 (incl. the native mint) with or without freeze authority and one of 13 extension sets built by the real Token-2022 crate, and the badge slot holding nothing / the badge / another config's badge / another config's data at the badge address / the badge under a foreign owner / the badge with the non-transferable attribute; compared with the Lean model `initializePoolV2` (result code by name, fee rates, price, tick, non-transferable flag; theorem init_pool_v2_sound) and an independent walk of the published admission table; xadm: 19 settings instructions (fee / protocol fee rates of pools, fee tiers and adaptive fee tiers, every set-authority instruction, adaptive-fee constants, config feature flag, config-extension and token-badge settings) executed through the program's REAL entrypoint on a world of two configs with different authorities: everything right / authority not signing / a stranger signing / the other config's authority with this config's target account or another role's authority / value out of bounds / target account of the other config; the op line carries the environment read from the real accounts, the Lean model answers with `accepts` on the REGENERATED account table (acceptsB_iff) and the setter's bound, so the translated tables and the semantics given to Signer / address / has_one / constraint are compared with Anchor's generated validation; oracle: only the all-right variant may succeed and then only the target account changes; mint: is_supported_token_mint on synthesized SPL / Token-2022 mint accounts (real packed base state; TLV with 0-4 entries drawn from supported, badge-gated, "
                 "never-supported, unknown (>27) and zero type numbers, DefaultAccountState values 0/1/2 and wrong lengths, random truncation and trailing bytes; freeze authority, native mint, badge on/off); "
                 "badge: all 8 combinations; setfee: all five bounded setters on boundary and random values; afc: validate_constants on boundary-biased constants; initpool: Whirlpool::initialize; "
                 "non-trivial = an accepted input",
